@@ -46,6 +46,23 @@ Theorem C19_order_raw : forall a b,
   (a_eq a b = true <-> a = b).
 Proof. exact order_raw_lemma. Qed.
 
+(* ordering and equality follow the raw values, through EVERY comparison form a caller can write on
+   the two address newtypes (derived PartialOrd/Ord/PartialEq/Eq and the provided methods of those
+   traits): partial_cmp is Some of the raw order (never None), < <= > >= == != are the raw
+   comparisons, equality is symmetric, max/min are the greater/smaller raw value and clamp(b, hi)
+   is the value of [b, hi] nearest to a (and panics, as documented, exactly when hi < b) *)
+Theorem C19_ordering_follows_raw : forall a b,
+  a_partial_cmp a b = Some (a_cmp a b) /\
+  (a_partial_cmp a b = Some 0 <-> a < b) /\ (a_partial_cmp a b = Some 1 <-> a = b) /\
+  (a_partial_cmp a b = Some 2 <-> b < a) /\
+  (a_lt a b = true <-> a < b) /\ (a_le a b = true <-> a <= b) /\
+  (a_gt a b = true <-> b < a) /\ (a_ge a b = true <-> b <= a) /\
+  (a_eq a b = true <-> a = b) /\ (a_ne a b = true <-> a <> b) /\ a_eq a b = a_eq b a /\
+  a_max a b = N.max a b /\ a_min a b = N.min a b /\
+  (forall hi, b <= hi -> a_clamp a b hi = Val (N.max b (N.min a hi))) /\
+  (forall hi, hi < b -> exists s, a_clamp a b hi = Panic s).
+Proof. exact ordering_follows_raw_lemma. Qed.
+
 (* non-vacuity: a concrete boundary case meets the hypotheses and exercises the None branch *)
 Example C19_nonvacuous :
   a_checked_align_up Debug (W64 - 3) (2 ^ 12) = Val None /\
@@ -60,3 +77,4 @@ Print Assumptions C19_overflowing_sub_exact.
 Print Assumptions C19_align_up_least.
 Print Assumptions C19_bit_ops_raw.
 Print Assumptions C19_order_raw.
+Print Assumptions C19_ordering_follows_raw.
